@@ -1,161 +1,12 @@
 /-
-  C17 — `Apart` at every site, by cases on the slot configuration.
+  C17 — `Apart` at every site, by cases on the slot configuration (the two case analyses are
+  in `C17ApartLocalRoot` and `C17ApartLocalInner`, compiled in parallel).
 -/
-import Gotree.Lemmas.C17Apart
+import Gotree.Lemmas.C17ApartLocalRoot
+import Gotree.Lemmas.C17ApartLocalInner
 
 namespace Gotree.C17
 open Gotree Gotree.C17.Spec
-
-theorem apart_kids {Z : List String} {isRoot : Bool} {k k' : Kids} (c : SplitE) (jj : Nat) (R : List SplitE)
-    (h1 : (splitsL k).Perm (c :: R)) (h2 : (splitsL k').Perm (entryOf k' jj :: R))
-    (he : c.e = (entryOf k' jj).e) (ht : c.tip = false) (ht' : (entryOf k' jj).tip = false)
-    (hcZ : ∀ x ∈ c.below, x ∈ Z) (hcZ' : ∀ x ∈ (entryOf k' jj).below, x ∈ Z)
-    (q1 : ∃ x, x ∈ c.below ∧ x ∈ (entryOf k' jj).below) (q2 : ∃ x, x ∈ c.below ∧ x ∉ (entryOf k' jj).below)
-    (q3 : ∃ x, x ∈ Z ∧ x ∉ c.below ∧ x ∈ (entryOf k' jj).below)
-    (q4 : isRoot = true → ∃ x, x ∈ Z ∧ x ∉ c.below ∧ x ∉ (entryOf k' jj).below)
-    (hR : ∀ s ∈ R, s.below ≠ [] ∧ Within Z c.below (entryOf k' jj).below s.below) :
-    Apart Z c.below isRoot (splitsL k) (splitsL k') :=
-  ⟨c, entryOf k' jj, R, R, rfl, h1, h2, sameBranches_refl _, he, ht, ht', hcZ, hcZ', q1, q2, q3, q4, hR⟩
-
-/-- the entries of one child's block lie below that child -/
-theorem block_sub (e : EdgeD) (t : T) : ∀ s ∈ (⟨t.leaves, e, t.isLeaf⟩ : SplitE) :: t.splitsBelow,
-    s.below ≠ [] ∧ ∀ x ∈ s.below, x ∈ t.leaves := by
-  intro s hs
-  have := below_sub_leavesL [(e, t)] s (by simpa [splitsL] using hs)
-  simpa [leavesL] using this
-
-macro "within_block" hsub:ident : tactic => `(tactic|
-  (unfold Within
-   first
-   | exact Or.inl (fun x hx => by have := $hsub x hx; grind)
-   | exact Or.inr (Or.inl (fun x hx => by have := $hsub x hx; grind))
-   | exact Or.inr (Or.inr (Or.inl (fun x hx => by have := $hsub x hx; grind)))
-   | exact Or.inr (Or.inr (Or.inr (Or.inl (fun x hx => by have := $hsub x hx; grind))))))
-
-macro "pick2" a:ident b:ident c:ident d:ident : tactic => `(tactic|
-  first
-  | exact ⟨$a, by grind, by grind⟩
-  | exact ⟨$b, by grind, by grind⟩
-  | exact ⟨$c, by grind, by grind⟩
-  | exact ⟨$d, by grind, by grind⟩)
-
-macro "pick3" a:ident b:ident c:ident d:ident : tactic => `(tactic|
-  first
-  | exact ⟨$a, by grind, by grind, by grind⟩
-  | exact ⟨$b, by grind, by grind, by grind⟩
-  | exact ⟨$c, by grind, by grind, by grind⟩
-  | exact ⟨$d, by grind, by grind, by grind⟩)
-
-/-- non-root site: the three blocks `u v y`; the central branch of the new tree is child `jj` -/
-macro "apart_at3" jj:num e:ident eu:ident ev:ident ey:ident tu:ident tv:ident ty:ident
-    xu:ident xv:ident xy:ident bu:ident bv:ident bY:ident : tactic => `(tactic|
-  (refine apart_kids ⟨T.leaves $tu ++ T.leaves $tv, $e, false⟩ $jj
-    (((⟨T.leaves $tu, $eu, T.isLeaf $tu⟩ : SplitE) :: T.splitsBelow $tu) ++
-      ((⟨T.leaves $tv, $ev, T.isLeaf $tv⟩ : SplitE) :: T.splitsBelow $tv) ++
-      ((⟨T.leaves $ty, $ey, T.isLeaf $ty⟩ : SplitE) :: T.splitsBelow $ty))
-    (by ev_entries; perm_entries) (by ev_entries; perm_entries) (by ev_entries) rfl (by ev_entries)
-    (by ev_entries; intro x hx; simp only [List.mem_append] at hx ⊢; grind)
-    (by ev_entries; intro x hx; simp only [List.mem_append] at hx ⊢; grind)
-    (by ev_entries; pick2 $xu $xv $xy $xy) (by ev_entries; pick2 $xu $xv $xy $xy) (by ev_entries; pick3 $xu $xv $xy $xy)
-    (by intro h; cases h) ?_
-   ev_entries
-   intro s hs
-   simp only [List.mem_append] at hs
-   rcases hs with (hs | hs) | hs
-   · obtain ⟨hne, hsub⟩ := $bu s hs
-     exact ⟨hne, by within_block hsub⟩
-   · obtain ⟨hne, hsub⟩ := $bv s hs
-     exact ⟨hne, by within_block hsub⟩
-   · obtain ⟨hne, hsub⟩ := $bY s hs
-     exact ⟨hne, by within_block hsub⟩))
-
-/-- root site: the four blocks `u v y z` -/
-macro "apart_at4" jj:num e:ident eu:ident ev:ident ey:ident ez:ident tu:ident tv:ident ty:ident tz:ident
-    xu:ident xv:ident xy:ident xz:ident bu:ident bv:ident bY:ident bz:ident : tactic => `(tactic|
-  (refine apart_kids ⟨T.leaves $tu ++ T.leaves $tv, $e, false⟩ $jj
-    (((⟨T.leaves $tu, $eu, T.isLeaf $tu⟩ : SplitE) :: T.splitsBelow $tu) ++
-      ((⟨T.leaves $tv, $ev, T.isLeaf $tv⟩ : SplitE) :: T.splitsBelow $tv) ++
-      ((⟨T.leaves $ty, $ey, T.isLeaf $ty⟩ : SplitE) :: T.splitsBelow $ty) ++
-      ((⟨T.leaves $tz, $ez, T.isLeaf $tz⟩ : SplitE) :: T.splitsBelow $tz))
-    (by ev_entries; perm_entries) (by ev_entries; perm_entries) (by ev_entries) rfl (by ev_entries)
-    (by ev_entries; intro x hx; simp only [List.mem_append] at hx ⊢; grind)
-    (by ev_entries; intro x hx; simp only [List.mem_append] at hx ⊢; grind)
-    (by ev_entries; pick2 $xu $xv $xy $xz) (by ev_entries; pick2 $xu $xv $xy $xz) (by ev_entries; pick3 $xu $xv $xy $xz)
-    (by intro _; ev_entries; pick3 $xu $xv $xy $xz) ?_
-   ev_entries
-   intro s hs
-   simp only [List.mem_append] at hs
-   rcases hs with ((hs | hs) | hs) | hs
-   · obtain ⟨hne, hsub⟩ := $bu s hs
-     exact ⟨hne, by within_block hsub⟩
-   · obtain ⟨hne, hsub⟩ := $bv s hs
-     exact ⟨hne, by within_block hsub⟩
-   · obtain ⟨hne, hsub⟩ := $bY s hs
-     exact ⟨hne, by within_block hsub⟩
-   · obtain ⟨hne, hsub⟩ := $bz s hs
-     exact ⟨hne, by within_block hsub⟩))
-
-/-- the leaves below child number `j` -/
-def lowerLeaves (k : Kids) (j : Nat) : List String :=
-  match k[j]? with
-  | some (_, c) => leavesL c.kids
-  | none => []
-
-/-- the statement of the local fact for one configuration -/
-def LocalApart (path : List Nat) (d1 : NodeD) (cross : Bool) (isRoot : Bool) (p1 : Nat) (k1 : Kids) (j p2 : Nat) : Prop :=
-  (leavesL k1).Nodup →
-    ∀ S', applyLocal isRoot (newNNI path isRoot p1 j p2 cross) (.node d1 p1 k1) = some S' →
-      Apart (leavesL k1) (lowerLeaves k1 j) isRoot (splitsL k1) (splitsL S'.kids)
-
-set_option maxHeartbeats 4000000 in
-theorem local_apart_root (path : List Nat) (d1 d2 : NodeD) (cross : Bool) (e eu ev : EdgeD) (tu tv : T)
-    (y z : EdgeD × T) (p1 p2 : Nat) (hp2 : p2 ≤ 2) :
-    LocalApart path d1 cross true p1 [(e, T.node d2 p2 [(eu, tu), (ev, tv)]), y, z] 0 p2 ∧
-    LocalApart path d1 cross true p1 [y, (e, T.node d2 p2 [(eu, tu), (ev, tv)]), z] 1 p2 ∧
-    LocalApart path d1 cross true p1 [y, z, (e, T.node d2 p2 [(eu, tu), (ev, tv)])] 2 p2 := by
-  obtain ⟨xu, hxu⟩ := List.exists_mem_of_ne_nil _ (leaves_ne_nil tu)
-  obtain ⟨xv, hxv⟩ := List.exists_mem_of_ne_nil _ (leaves_ne_nil tv)
-  obtain ⟨ey, ty⟩ := y
-  obtain ⟨ez, tz⟩ := z
-  obtain ⟨xy, hxy⟩ := List.exists_mem_of_ne_nil _ (leaves_ne_nil ty)
-  obtain ⟨xz, hxz⟩ := List.exists_mem_of_ne_nil _ (leaves_ne_nil tz)
-  have bu := block_sub eu tu
-  have bv := block_sub ev tv
-  have bY := block_sub ey ty
-  have bz := block_sub ez tz
-  have h2 : p2 = 0 ∨ p2 = 1 ∨ p2 = 2 := by omega
-  unfold LocalApart
-  rcases h2 with rfl | rfl | rfl <;> cases cross <;>
-    refine ⟨?_, ?_, ?_⟩ <;> intro hnd S' hS' <;> eval_local at hS' <;> subst hS' <;>
-    simp only [leavesL, T.leaves, List.append_nil, List.nodup_append, List.mem_append] at hnd <;>
-    simp only [T.kids_node, lowerLeaves, List.getElem?_cons_zero, List.getElem?_cons_succ, leavesL, List.append_nil] <;>
-    first
-    | apart_at4 0 e eu ev ey ez tu tv ty tz xu xv xy xz bu bv bY bz
-    | apart_at4 1 e eu ev ey ez tu tv ty tz xu xv xy xz bu bv bY bz
-    | apart_at4 2 e eu ev ey ez tu tv ty tz xu xv xy xz bu bv bY bz
-
-set_option maxHeartbeats 4000000 in
-theorem local_apart_nonroot (path : List Nat) (d1 d2 : NodeD) (cross : Bool) (e eu ev : EdgeD) (tu tv : T)
-    (y : EdgeD × T) (p1 p2 : Nat) (hp1 : p1 ≤ 2) (hp2 : p2 ≤ 2) :
-    LocalApart path d1 cross false p1 [(e, T.node d2 p2 [(eu, tu), (ev, tv)]), y] 0 p2 ∧
-    LocalApart path d1 cross false p1 [y, (e, T.node d2 p2 [(eu, tu), (ev, tv)])] 1 p2 := by
-  obtain ⟨xu, hxu⟩ := List.exists_mem_of_ne_nil _ (leaves_ne_nil tu)
-  obtain ⟨xv, hxv⟩ := List.exists_mem_of_ne_nil _ (leaves_ne_nil tv)
-  obtain ⟨ey, ty⟩ := y
-  obtain ⟨xy, hxy⟩ := List.exists_mem_of_ne_nil _ (leaves_ne_nil ty)
-  have bu := block_sub eu tu
-  have bv := block_sub ev tv
-  have bY := block_sub ey ty
-  have h1 : p1 = 0 ∨ p1 = 1 ∨ p1 = 2 := by omega
-  have h2 : p2 = 0 ∨ p2 = 1 ∨ p2 = 2 := by omega
-  unfold LocalApart
-  rcases h1 with rfl | rfl | rfl <;> rcases h2 with rfl | rfl | rfl <;> cases cross <;>
-    refine ⟨?_, ?_⟩ <;> intro hnd S' hS' <;> eval_local at hS' <;> subst hS' <;>
-    simp only [leavesL, T.leaves, List.append_nil, List.nodup_append, List.mem_append] at hnd <;>
-    simp only [T.kids_node, lowerLeaves, List.getElem?_cons_zero, List.getElem?_cons_succ, leavesL, List.append_nil] <;>
-    first
-    | apart_at3 0 e eu ev ey tu tv ty xu xv xy bu bv bY
-    | apart_at3 1 e eu ev ey tu tv ty xu xv xy bu bv bY
 
 /-- at every site: `Apart`, the site being the leaves below the upper end -/
 theorem local_apart {path : List Nat} {isRoot : Bool} {p1 : Nat} {k1 : Kids} {j : Nat}
